@@ -153,7 +153,9 @@ impl Decoder {
     }
 
     fn key(&self) -> &[u8] {
-        &self.key[.. std::cmp::min(self.key_size, 16)]
+        // RC4 and AES-128 use at most 16 bytes, AES-256 the whole 32 byte key
+        let max = if matches!(self.method, CryptMethod::AESV3) { 32 } else { 16 };
+        &self.key[.. std::cmp::min(self.key_size, max)]
     }
 
     pub fn new(key: Vec<u8>, key_size: usize, method: CryptMethod, encrypt_metadata: bool) -> Decoder {
